@@ -44,6 +44,47 @@ def impl_decode(T, bs):
     return ("ok", v, len(bs) - stream.tell())
 
 
+def _scramble(v):
+    """change a decoded value in place as a caller may (flip flags, overwrite items): lists and dicts are mutable API values"""
+    if isinstance(v, list):
+        for i in range(len(v)):
+            if isinstance(v[i], bool):
+                v[i] = not v[i]
+            elif isinstance(v[i], int):
+                v[i] = v[i] ^ 1
+            elif isinstance(v[i], (list, dict)):
+                _scramble(v[i])
+            else:
+                v[i] = None
+        v.append("scrambled")
+    elif isinstance(v, dict):
+        for k in list(v):
+            if isinstance(v[k], (list, dict)):
+                _scramble(v[k])
+            else:
+                v[k] = None
+        v["scrambled"] = True
+
+
+def decode_purity(ctx, focus, d, T, bs, first):
+    """decode is a function of the bytes: what a caller does to a returned value must not show up in a later decode
+    of the same bytes (no shared mutable results)"""
+    if first[0] != "ok" or not isinstance(first[1], (list, dict)):
+        return
+    snap = sx.canon(first[1])
+    mine = impl_decode(T, bs)           # a value of our own to play the caller with (`first` is still compared with the model)
+    if mine[0] != "ok":
+        return
+    _scramble(mine[1])
+    again = impl_decode(T, bs)
+    ctx.case("dec-purity", ("pure", tygen.to_sx(d), bs))
+    if again[0] != "ok" or sx.canon(again[1]) != snap:
+        _viol(ctx, focus, "C07" if focus != "C06" else "C06", "decode-depends-on-earlier-result-mutation:" + _shape(d),
+              {"op": "dec-twice", "type": d, "bytes": bs.hex()},
+              "first decode %s; after the caller changed that value in place, decoding the same bytes gave %r" % (
+                  repr(snap)[:120], again[1] if again[0] == "ok" else again))
+
+
 def model_decode_parse(line):
     if line.startswith("ok "):
         items = sx.parse(line[3:])
@@ -241,6 +282,8 @@ def run(ctx, model, focus):
                 if e != want:
                     _viol(ctx, focus, "C06" if d[0] != "bool" else "C07", "roundtrip-bytes:" + tygen.show(d),
                           {"op": "dec-enc", "type": d, "bytes": bs.hex()}, "encode(decode(b)) = %s" % e)
+                if w == 1 or n % 16 == 0:
+                    decode_purity(ctx, focus, d, T, bs, r)
             else:
                 _viol(ctx, focus, "C08", "decode-rejects-full-width:" + tygen.show(d),
                       {"op": "dec", "type": d, "bytes": bs.hex()}, "raised %s" % r[1])
@@ -329,6 +372,8 @@ def run(ctx, model, focus):
                     _viol(ctx, focus, "C06", "roundtrip-consumed:" + _shape(d),
                           {"op": "rt", "type": d, "value": v, "buf": buf.hex()},
                           "left %d bytes, expected %d" % (r[2], len(tail)))
+            if vi < 2:
+                decode_purity(ctx, focus, d, T, buf, r)
             # C08: truncations
             if focus == "C08" or vi == 0:
                 _truncations(ctx, focus, ask, d, T, tsx, pre + enc, rng)
